@@ -30,8 +30,12 @@ RULE = (
     "fixed-flavour solves (2-3 point grids), orders 1-3 (quick: 1-2) and QED (n,1),(n,2), one scheme, xi^2 in [1/4,4], "
     "alpha_s(mu0) in [0.2,0.3] scaled by lambda in {1,1/2,1/4,1/8} (QED {1,1/2,1/4}) with the evolution length "
     "ln(mu1^2/mu0^2) scaled by 1/lambda (fixed coupling ratio, the regime in which a_s^n is the sharp power); R(lambda) = "
-    "max|E_var - E_unv| / max|E_unv| over all operator entries; best local exponent >= n - 0.3; xi=1: operators "
-    "bitwise equal. Thorough tier adds one threshold crossing (fixed scales, 8-10 point grids, toy PDFs as in C50). "
+    "max|E_var - E_unv| / max|E_unv(largest lambda)| over all operator entries; best local exponent >= n - 0.3; xi=1: operators "
+    "bitwise equal. Every run additionally contains a deterministic crossing case chosen from the run seed (run_custom: "
+    "expanded scheme, xi != 1, NLO, one matching crossed up or down at fixed scales, 3-point grid, lambda in {1,1/2,1/4}, "
+    "operator-level R read at the two smallest usable lambdas; the thorough tier runs four, two of them exponentiated at "
+    "NNLO upward with the intrinsic heavy-quark input columns judged separately), and the thorough tier generates threshold crossings with "
+    "either scheme (8-10 point grids, toy PDFs without intrinsic heavy input, as in C50). "
     "Non-trivial = at least two usable lambdas (K: both schemes) or an exact-identity case with a1 != a0; distinct by "
     "the full case (K) / (order, scheme, method, sign of ln xi^2, running, path) (E)."
 )
@@ -84,8 +88,8 @@ SCHEMES = ("exponentiated", "expanded")
 
 def budget(tier):
     if tier == "quick":
-        return dict(max_examples=6000, shards=16, wall_s=150, shrink_s=15)
-    return dict(max_examples=32000, shards=16, wall_s=850, shrink_s=150)
+        return dict(max_examples=6000, shards=16, wall_s=150, shrink_s=15, custom_shards=1)
+    return dict(max_examples=32000, shards=16, wall_s=850, shrink_s=150, custom_shards=4)
 
 
 # --------------------------------------------------------------------------------------------- strategy
@@ -358,14 +362,6 @@ def check_kernel(case):
 # --------------------------------------------------------------------------------------------- end-to-end half
 
 
-def _solve_one(card):
-    from vf import runner_util as ru
-
-    ops = ru.solve(card)
-    (_, (op, _e)), = ops.items()
-    return op
-
-
 def _ffns_card(case, lam, varied):
     n, qed = case["order"]
     dt = case["dt1"] / lam
@@ -404,48 +400,95 @@ def _thr_card(case, lam, varied):
     return card
 
 
+def crossing_case(tier, seed, variant="expanded-nlo"):
+    """Deterministic threshold-crossing cases (run_custom), functions of the run seed; operator-level, 3-point grid, one
+    matching crossed at fixed scales.  'expanded-nlo' (every run): expanded scheme, xif != 1, NLO, up or down, lambda in
+    {1, 1/2, 1/4}.  'exponentiated-nnlo' (thorough tier): exponentiated scheme, NNLO, upward, lambda down to 1/8; the
+    columns of the heavy quark that is still inactive at the start (intrinsic input) are judged separately."""
+    rng = np.random.default_rng([int(seed), 51])
+
+    def pick(seq):
+        return seq[int(rng.integers(0, len(seq)))]
+
+    def uni(lo, hi):
+        return float(rng.uniform(lo, hi))
+
+    up = bool(pick((True, True, False)))
+    case = {
+        "half": "E", "kind": "crossing", "order": [2, 0], "scheme": "expanded", "xi2": math.exp(uni(0.5, math.log(4)) * pick((1, -1))),
+        "method": pick(("iterate-exact", "truncated", "perturbative-exact")), "nf": pick((3, 4)), "mass": uni(4.0, 6.0), "up": up,
+        "inv": pick(("exact", "expanded")), "alphas": uni(0.18, 0.25), "alphaem": 0.0075, "running": False, "npts": 3,
+        "deg": pick((1, 2)), "lambdas": [1.0, 0.5, 0.25], "seed": int(seed),
+    }
+    if variant == "exponentiated-nnlo":
+        case.update(order=[3, 0], scheme="exponentiated", up=True, method=pick(("truncated", "iterate-exact")), lambdas=[1.0, 0.5, 0.25, 0.125])
+    return case
+
+
+def run_custom(tier, seed, shard, nshards, record):
+    """Deterministic part: threshold crossings with the expanded scheme (one per quick run, four per thorough run).  Only a
+    path with a matching separates 'the last segment carries the variation' from 'every segment does' (Operator.mu2 vs the
+    is_threshold test at the kernel site); the generated end-to-end cases of the quick tier are fixed-flavour."""
+    variants = ["expanded-nlo"] if tier == "quick" else ["expanded-nlo", "exponentiated-nnlo", "expanded-nlo", "exponentiated-nnlo"]
+    for i, variant in enumerate(variants):
+        if i % nshards != shard:
+            continue
+        case = crossing_case(tier, seed * 10 + i, variant)
+        record(case, check_case(case))
+
+
 def check_e2e(case):
+    from vf import runner_util as ru
     from vf.props.c50_matching_scale import local_exponents, tight_quad, toy_input
 
     res = CaseResult()
     n, qed = case["order"]
     kind, scheme = case["kind"], case["scheme"]
-    thr = kind == "threshold"
+    thr = kind in ("threshold", "crossing")
     sign = "+" if case["xi2"] > 1 else ("-" if case["xi2"] < 1 else "0")
     res.classes = [f"E/kind={kind}", f"E/order={n},{qed}", f"E/scheme={scheme}", f"E/method={case['method']}", f"E/lnxi2{sign}"]
     res.key = [case["order"], scheme, case["method"], sign, case["running"], kind, case.get("up")]
     build = _thr_card if thr else _ffns_card
     where = f"{'qed' if qed else 'qcd'}/sv={scheme}"
-    R = []
+    workers = 6 if kind == "crossing" else 4
+    lams = [1.0] if kind == "xi1" else list(case["lambdas"])
+    cards = []
+    for lam in lams:
+        cards += [build(case, lam, False), build(case, lam, True)]
     try:
         with tight_quad():
-            if kind == "xi1":
-                e0 = _solve_one(build(case, 1.0, False))
-                e1 = _solve_one(build(case, 1.0, True))
-                if not np.array_equal(e0, e1):
-                    d = np.abs(e1 - e0)
-                    res.fail(
-                        f"{ID}/E/xi1-not-identical/{where}",
-                        f"xif=1 with scheme {scheme}: operator differs from the unvaried one, max |diff| {d.max():.3e} at "
-                        f"{tuple(int(i) for i in np.unravel_index(d.argmax(), d.shape))}; order {case['order']}, method {case['method']}",
-                    )
-                return res
-            for lam in case["lambdas"]:
-                c0, c1 = build(case, lam, False), build(case, lam, True)
-                e0, e1 = _solve_one(c0), _solve_one(c1)
-                if thr:
-                    f0 = toy_input(case["pdf"], c0["xgrid"])
-                    f_u, f_v = np.einsum("ajbk,bk->aj", e0, f0), np.einsum("ajbk,bk->aj", e1, f0)
-                    R.append(float(np.max(np.abs(f_v - f_u)) / np.max(np.abs(f_u))))
-                else:
-                    R.append(float(np.max(np.abs(e1 - e0)) / np.max(np.abs(e0))))
-    except (NotImplementedError, ValueError) as e:
+            # independent solves in forked workers (they inherit the tightened quadrature)
+            ops = [list(o.values())[0][0] for o in ru.solve_many(cards, workers)]
+    except (NotImplementedError, ValueError, ru.SolveRefused) as e:
         return CaseResult(discarded=f"E/refused:{type(e).__name__}")
-    except Exception as e:  # noqa: BLE001 - crashes are C04's verdict
-        return CaseResult(discarded=exc_bucket("E/crash(decided by C04)", e))
+    except ru.SolveCrashed as e:  # crashes are C04's verdict
+        return CaseResult(discarded="E/crash(decided by C04):" + str(e)[:80])
+    if kind == "xi1":
+        e0, e1 = ops
+        if not np.array_equal(e0, e1):
+            d = np.abs(e1 - e0)
+            res.fail(
+                f"{ID}/E/xi1-not-identical/{where}",
+                f"xif=1 with scheme {scheme}: operator differs from the unvaried one, max |diff| {d.max():.3e} at "
+                f"{tuple(int(i) for i in np.unravel_index(d.argmax(), d.shape))}; order {case['order']}, method {case['method']}",
+            )
+        return res
+    # relative to the size of the unvaried result at the largest coupling: one normalisation for all lambdas (at fixed
+    # scales max|E| itself falls from ~7 to ~1 with the coupling on a small-x grid, which would eat one power)
+    R, norm = [], None
+    for i in range(len(lams)):
+        e0, e1 = ops[2 * i], ops[2 * i + 1]
+        if kind == "threshold":
+            f0 = toy_input(case["pdf"], cards[2 * i]["xgrid"])
+            e0, e1 = np.einsum("ajbk,bk->aj", e0, f0), np.einsum("ajbk,bk->aj", e1, f0)
+        if norm is None:
+            norm = float(np.max(np.abs(e0)))
+        R.append(float(np.max(np.abs(e1 - e0))) / norm)
     if not all(math.isfinite(r) for r in R):
         res.fail(f"{ID}/E/non-finite/{where}", f"non-finite operator difference R={R}")
         return res
+    if kind == "crossing":
+        return _crossing_verdict(res, case, lams, ops, norm, where)
     usable = [r for r in R if r > 100 * E_NOISE]
     res.nontrivial = bool(R[0] > 100 * E_NOISE and len(usable) >= 2)
     if not res.nontrivial:
@@ -455,12 +498,50 @@ def check_e2e(case):
     best = max(ex)
     res.classes.append(f"E/best-exp-n~{round((best - n) * 2) / 2:+.1f}")
     if not best >= n - E_THR:
+        path = f"{'threshold' if thr else 'ffns'}"
         res.fail(
-            f"{ID}/E/exponent/{where}/{'threshold' if thr else 'ffns'}",
-            f"|E_{scheme} - E_unvaried| / |E| = {['%.3e' % r for r in R]} for lambda={case['lambdas']}: local exponents "
+            f"{ID}/E/exponent/{where}/{path}",
+            f"|E_{scheme} - E_unvaried| / |E(lambda=1)| = {['%.3e' % r for r in R]} for lambda={case['lambdas']}: local exponents "
             f"{['%.2f' % e for e in ex]}, required >= {n - E_THR:.1f} at order {case['order']}; xi^2={case['xi2']:.4g}, method "
-            f"{case['method']}, nf={case['nf']}, alpha_em running={case['running']}",
+            f"{case['method']}, nf={case['nf']}, alpha_em running={case['running']}, kind={kind}"
+            + (f", {'up' if case['up'] else 'down'} across m={case['mass']:.3f} (inv={case['inv']})" if thr else ""),
         )
+    return res
+
+
+PIDS = [22, -6, -5, -4, -3, -2, -1, 21, 1, 2, 3, 4, 5, 6]
+
+
+def _crossing_verdict(res, case, lams, ops, norm, where):
+    """Deterministic crossing cases: input columns split into the partons active at the start and the heavy quark that is
+    activated on the way (intrinsic input, upward paths only).  Varied and unvaried paths have the same segmentation and
+    every factor (segments, matching) is within the working order on its own, so there is no interpolation floor from
+    products of discretised operators (unlike C50) and the exponent is read at the two smallest usable lambdas."""
+    n = case["order"][0]
+    nfl = case["nf"]
+    active = nfl if case["up"] else nfl + 1
+    groups = {"active-input": [k for k, p in enumerate(PIDS) if p == 21 or 0 < abs(p) <= active]}
+    if case["up"]:
+        groups["intrinsic-heavy-input"] = [k for k, p in enumerate(PIDS) if abs(p) == nfl + 1]
+    nt = False
+    for name, cols in groups.items():
+        R = [float(np.max(np.abs(ops[2 * i + 1] - ops[2 * i])[:, :, cols, :])) / norm for i in range(len(lams))]
+        idx = [i for i, r in enumerate(R) if r > 100 * E_NOISE]
+        if len(idx) < 2:
+            res.classes.append(f"E/crossing/{name}/unusable")
+            continue
+        nt = True
+        i, j = idx[-2], idx[-1]
+        ex = math.log(R[i] / R[j]) / math.log(lams[i] / lams[j])
+        res.classes.append(f"E/crossing/{name}/exp-n~{round((ex - n) * 2) / 2:+.1f}")
+        if not ex >= n - E_THR:
+            res.fail(
+                f"{ID}/E/exponent/{where}/threshold/{name}",
+                f"{name} columns: |E_{case['scheme']} - E_unvaried| / |E(lambda=1)| = {['%.3e' % r for r in R]} for lambda={lams}: exponent at "
+                f"the two smallest usable lambdas {ex:.2f} < {n - E_THR:.1f} at order {case['order']}; xi^2={case['xi2']:.4g}, method "
+                f"{case['method']}, nf {nfl}{'->' if case['up'] else '<-'}{nfl + 1} across m={case['mass']:.3f} (inv={case['inv']})",
+            )
+    res.nontrivial = nt
     return res
 
 
